@@ -205,6 +205,10 @@ func goListCheck(r *rep.Reporter, s *drv.Server, bucket string, live map[string]
 	}
 	if delim != "" {
 		p.HasDelimiter, p.Delimiter = true, delim
+	} else if len(prefix)%3 == 1 {
+		// NewPrefix(prefix, &"") - a delimiter that is present and empty groups nothing
+		p.HasDelimiter = true
+		r.Count("go_listings_with_empty_delimiter", 1)
 	}
 	var ol *gofakes3.ObjectList
 	var err error
